@@ -21,3 +21,21 @@ func seedRuntime(seed uint64) {
 	runtimeVerifSetSeed(seed)
 	rand.Seed(int64(seed & 0x7fffffffffffffff))
 }
+
+//go:linkname runtimeVerifGetTag runtime.verifGetTag
+func runtimeVerifGetTag() uint64
+
+//go:linkname runtimeVerifSetTag runtime.verifSetTag
+func runtimeVerifSetTag(t uint64)
+
+//go:linkname runtimeVerifNextCount runtime.verifNextCount
+func runtimeVerifNextCount() uint64
+
+// withTag runs fn with the calling goroutine labelled t (goroutines started
+// by fn inherit the label).
+func withTag(t uint64, fn func()) {
+	old := runtimeVerifGetTag()
+	runtimeVerifSetTag(t)
+	defer runtimeVerifSetTag(old)
+	fn()
+}
